@@ -345,6 +345,20 @@ def dynamic(case, res):
                     if d["rw"] else None
                 devs.append(Dev(a, bb))
             sg = SyncGroup(ec, devs)
+            restart = (case["terms"][members[0]]["pos"] + gi) % 3 == 0
+            if restart:
+                # the group ran before with another configuration of one of
+                # its terminals (process data size changed in between, e.g.
+                # another PDO assignment) and is started again: the layout
+                # must follow the terminals as they are now
+                old_sz = ts[members[0]].pdo_in_sz
+                ts[members[0]].pdo_in_sz = old_sz + 4
+                try:
+                    sg.allocate()
+                except OverflowError:
+                    pass
+                ts[members[0]].pdo_in_sz = old_sz
+                out.setdefault("restarted", []).append(gi)
             try:
                 sg.allocate()
             except OverflowError:
@@ -365,6 +379,8 @@ def dynamic(case, res):
                 resp = b.process(bytes(frame))
             out[gi] = (sg, members, ts, bytes(frame), resp)
     aio.run(main)
+    res.count("groups_allocated_again_after_a_size_change",
+              len(out.pop("restarted", [])))
     for gi, (sg, members, ts, frame, resp) in out.items():
         for i in members:
             d = case["terms"][i]
